@@ -2041,13 +2041,11 @@ class CxxParser:
             elif tok_value in ("&", "&&"):
                 method.ref_qualifier = tok_value
             elif tok_value == "->":
+                # virt-specifiers, a requires-clause, a pure-specifier or the
+                # body may still follow the trailing return type
                 return_type = self._parse_trailing_return_type(method.return_type)
                 method.has_trailing_return = True
                 method.return_type = return_type
-                if self.lex.token_if("{"):
-                    self._discard_contents("{", "}")
-                    method.has_body = True
-                break
             elif tok_value == "throw":
                 tok = self._next_token_must_be("(")
                 method.throw = self._create_value(
